@@ -48,6 +48,38 @@ fn record(j: u64, args: [u64; 5], rsp: u64) {
         }
     }
     CALLS[j as usize % NH].fetch_add(1, Relaxed);
+    if j == 6 {
+        nested_run();
+    }
+}
+
+/// Helper #6 is also a *re-entrant user of the crate*: while the calling program is suspended in
+/// the helper call, it interprets another VM's program, which overwrites its own whole 512-byte
+/// stack and its registers. Nothing of that may be visible to the caller (each execution has a
+/// private stack and register file); the monitors' hooks are suspended meanwhile so that counts
+/// and traces keep describing the outer execution only.
+pub static NESTED_RUNS: AtomicU64 = AtomicU64::new(0);
+fn nested_run() {
+    use crate::engines::{hooks, Kind, Vm};
+    use crate::isa::*;
+    static PROG: std::sync::OnceLock<Vec<u8>> = std::sync::OnceLock::new();
+    let prog = PROG.get_or_init(|| {
+        let mut v: Vec<Insn> = Vec::new();
+        for k in 1..=64i16 {
+            v.push(Insn::new(STDW, 10, 0, -8 * k, 0x0bad_f00d));
+        }
+        for r in 0..10u8 {
+            v.push(Insn::new(MOV64_IMM, r, 0, 0, 0x6b6b_6b00 + r as i32));
+        }
+        v.push(Insn::new(EXIT, 0, 0, 0, 0));
+        encode_prog(&v)
+    });
+    hooks::suspended(|| {
+        if let Ok(mut vm) = Vm::new(Kind::NoData, Some(prog), (0, 8)) {
+            let _ = vm.exec((std::ptr::null_mut(), 0), (std::ptr::null_mut(), 0));
+            NESTED_RUNS.fetch_add(1, Relaxed);
+        }
+    });
 }
 
 /// The value helper #j returns for these arguments.
